@@ -17,6 +17,17 @@ SCRATCH = os.path.join(common.ROOT, ".scratch")
 os.makedirs(SCRATCH, exist_ok=True)
 
 
+def _remove_snapshot_file():
+    p = os.path.join(SCRATCH, "c18-%d.json" % os.getpid())
+    if os.path.exists(p):
+        os.remove(p)
+
+
+import atexit  # noqa: E402
+
+atexit.register(_remove_snapshot_file)
+
+
 def aslist(x):
     return [int(v) for v in x]
 
@@ -240,20 +251,21 @@ def _run_book(orc, tick, trading, t0, ops):
         elif kind == "roundtrip":
             # snapshot written from Python loads in Rust; one written by Rust loads in Python
             _, pretty, direction = op
-            path = os.path.join(SCRATCH, "c18-%d-%d.json" % (os.getpid(), step))
-            try:
-                if direction == 0:
-                    b.save_json_snapshot(path, pretty)
-                    r = orc.call("book_load", path=path)
-                    if not r["ok"]:
-                        raise Violation("C18 snapshot written from Python does not load in Rust", "step %d: %r" % (step, r))
-                else:
-                    r = orc.call("book_save", path=path, pretty=pretty)
-                    b = common.Guarded(bourse.core.order_book_from_json(path), "C18", "OrderBook")
-                feat["roundtrips"] += 1
-            finally:
-                if os.path.exists(path):
-                    os.remove(path)
+            # one snapshot path per process, deliberately NOT removed between uses: saving over an existing (often
+            # longer) file is ordinary usage and must replace it; before the first use it holds a long unrelated text
+            path = os.path.join(SCRATCH, "c18-%d.json" % os.getpid())
+            if not os.path.exists(path):
+                with open(path, "w") as fh:
+                    fh.write("{" + " " * 60000 + "}")
+            if direction == 0:
+                b.save_json_snapshot(path, pretty)
+                r = orc.call("book_load", path=path)
+                if not r["ok"]:
+                    raise Violation("C18 snapshot written from Python does not load in Rust", "step %d: %r" % (step, r))
+            else:
+                r = orc.call("book_save", path=path, pretty=pretty)
+                b = common.Guarded(bourse.core.order_book_from_json(path), "C18", "OrderBook")
+            feat["roundtrips"] += 1
         compare(step, op)
     nontrivial = feat["trades"] >= 1 and feat["cancel_or_modify"] >= 1 and feat["asym"] >= 1
     return nontrivial, {"book_sequences": 1, "book_calls": feat["calls"], "book_trades": feat["trades"], "book_error_paths": feat["errors"], "book_snapshot_roundtrips": feat["roundtrips"], "book_asymmetric_states": feat["asym"], "book_modifies_restating_current_values": feat.get("restating_modifies", 0)}
